@@ -13,12 +13,15 @@ OBLIGATIONS = [
     'C12.dilation_rotor', 'C12.rotation_rotor_unit', 'C12.rotation_rotor_turns', 'C12.rotation_rotor_fixes',
     'C12.point_pair_square', 'C12.point_pair_end_points', 'C12.point_pair_dot_einf', 'C12.sphere_centre', 'C12.sphere_radius',
     'C12.quaternion_matrix_rows', 'C12.matrix_quaternion_round_trip', 'C12.rotor_acts_as_matrix', 'C12.quaternion_rotor_norm', 'C12.rotor_quaternion_round_trip',
+    'C12.ga_exp_is_series_exponential', 'C12.ga_exp_unit_rotor', 'C12.ga_exp_translation_branch',
 ]
 PARTIAL = ['dilation/rotation rotors, point_pair_to_end_points, sphere centre/radius are proved with the transcendental value as a parameter constrained by its algebraic law '
            '(a^2-b^2 = 1, c^2+s^2 = 1, beta = -gamma); that libm satisfies these laws to rounding is evaluated',
            'g3 conversions: quaternion -> matrix -> quaternion (over the reals, branch selection included), rotor <-> quaternion and "the rotor acts as the matrix" are '
            'theorems tied by translate/quat2lean.py; matrix -> quaternion -> matrix (that every rotation matrix is the matrix of a unit quaternion) and binary64 rounding are evaluated',
-           'projections, cost and parameterisation kernels, explicit and line-specialised rotor extractors: no Lean theorem '
+           'ga_exp / val_exp: for every rotation-translation bivector of g3c the N-term series exponential has exactly the coded closed form with cos, sin/phi replaced '
+           'by their N-term polynomials, and the closed form is a unit rotor (theorems); convergence of the polynomials to libm and the value-array code itself are evaluated',
+           'projections, cost and the remaining parameterisation kernels, explicit and line-specialised rotor extractors: no Lean theorem '
            '(branch analysis / numerical kernels); decided by evaluation on the implementation']
 RULE = ("Euclidean points/vectors with dyadic coordinates in a box of size 8, scales/radii in [1/4, 8], angles in (0, pi); random integer multivectors for the algebraic "
         "identities (fast kernels vs generic definitions, exact). Non-trivial = non-zero input; distinct = distinct (function, input)")
